@@ -856,6 +856,7 @@ impl Engine for C04 {
             "corpus with one token of the full alphabet inserted at one site".into(),
             p_ins(if thorough { 100_000 } else { 40 }),
         ));
+        spaces.push(("programs whose import names something unusual (22 paths x 3 forms)".into(), p_imports()));
         spaces.push(("nesting families".into(), p_nest(thorough)));
         // Parseable programs: the single-module members of the program spaces of C01/C02
         // (every expression tree of <= k constructors in every one-hole context, the
@@ -900,6 +901,7 @@ impl Engine for C04 {
             }
             ext.push((format!("{binary}: corpus of valid programs, 0 deviations"), p_corpus()));
             ext.push((format!("{binary}: nesting families"), p_nest(thorough)));
+            ext.push((format!("{binary}: programs whose import names something unusual"), p_imports()));
             ext.push((
                 format!("{binary}: one representative per in-process outcome class"),
                 json!({"space": "classes", "last": subject == "lsp"}),
